@@ -821,7 +821,10 @@ def run_copy(c):
     ck = Checker()
     ck.check(not np.shares_memory(new.array, source_arr), site + ":shares-memory-with-source", c["norm"])
     if new.array.flags.writeable:
+        from ..runner import reset_recent
+
         new.array[...] = new.array * 0 + 9  # what item assignment on the new object does
+        reset_recent()  # the harness itself changed a result here: nothing to hold against later calls
     ck.check(np.array_equal(source_arr, before), site + ":source-changed-by-writing-to-the-new-object", (c["norm"], C.short(source_arr.tolist())))
     if not np.array_equal(source_arr, before):
         source_arr[...] = before  # restore module constants for the following cases
